@@ -11,3 +11,8 @@ import MimicProps.C05
 #print axioms MimicProps.C05.infer_preserves_rows
 #print axioms MimicProps.C05.infer_type_order
 #print axioms MimicProps.C05.encoder_tables
+#print axioms MimicProps.C05.lenenc_is_code
+#print axioms MimicProps.C05.code_lenenc_roundtrip
+#print axioms MimicProps.C05.code_str_roundtrip
+#print axioms MimicProps.C05.types_coverage
+#print axioms MimicProps.C05.temporal_encoders_are_code
